@@ -97,10 +97,16 @@ func (s Script) err() error {
 	return status.FromProto(p).Err()
 }
 
-func customMD(md metadata.MD) map[string][]string {
+// customMD keeps the metadata the script sent (and anything else that looks custom); what the transports add on
+// their own (user-agent, :authority, content-type, accept-encoding ...) differs between the two routes by nature.
+func customMD(md metadata.MD, s Script) map[string][]string {
+	sent := map[string]bool{}
+	for _, kv := range s.MD {
+		sent[kv.Key] = true
+	}
 	out := map[string][]string{}
 	for k, v := range md {
-		if strings.HasPrefix(k, "x-") {
+		if strings.HasPrefix(k, "x-") || sent[k] {
 			out[k] = append([]string{}, v...)
 		}
 	}
@@ -131,7 +137,7 @@ func setup() {
 			md, _ := metadata.FromIncomingContext(ctx)
 			st.log.mu.Lock()
 			st.log.ran = true
-			st.log.md = customMD(md)
+			st.log.md = customMD(md, st.s)
 			st.log.msgs = append(st.log.msgs, wire(req))
 			st.log.mu.Unlock()
 			if st.s.FailPoint != "none" {
@@ -145,7 +151,7 @@ func setup() {
 			md, _ := metadata.FromIncomingContext(ss.Context())
 			log.mu.Lock()
 			log.ran = true
-			log.md = customMD(md)
+			log.md = customMD(md, s)
 			log.mu.Unlock()
 			if s.FailPoint == "before-first" {
 				return s.err()
@@ -503,10 +509,16 @@ func genScript(t *rapid.T) Script {
 	nmd := rapid.IntRange(0, 3).Draw(t, "nmd")
 	used := map[string]bool{}
 	for i := 0; i < nmd; i++ {
-		kv := KV{Key: "x-" + rapid.StringMatching(`[a-z0-9]{1,5}`).Draw(t, "k")}
+		// most keys are plainly custom; one in four looks like a protocol header without being one
+		// (grpc-go reserves an explicit list of names, not the prefix: tracing uses grpc-trace-bin)
+		pfx := rapid.SampledFrom([]string{"x-", "x-", "x-", "x-", "x-", "x-", "grpc-", "grpc-trace", "content-", "te-"}).Draw(t, "kpfx")
+		kv := KV{Key: pfx + rapid.StringMatching(`[a-z0-9]{1,5}`).Draw(t, "k")}
 		bin := rapid.Bool().Draw(t, "bin")
 		if bin {
 			kv.Key += "-bin"
+		}
+		if kv.Key == "content-type" {
+			kv.Key = "content-typex"
 		}
 		if used[kv.Key] {
 			continue
